@@ -45,13 +45,25 @@ def extract(ctx, cls, meth):
     want_args = a
     bad_calls = []
 
+    syms = [sp.Symbol(x, real=True) for x in a]
+
     def call(n, env, se):
         if isinstance(n.func, ast.Attribute) and n.func.attr in ('evaluate', 'volume_evaluate'):
             recv = util.strip_cast(n.func.value)
-            if n.func.attr != meth:
-                bad_calls.append('child evaluated with %s inside %s (the volume is not passed down)' % (n.func.attr, meth))
-            if [src(x) for x in n.args] != want_args:
-                bad_calls.append('child evaluated with arguments %s, expected %s' % ([src(x) for x in n.args], want_args))
+            if isinstance(recv, ast.Name) and recv.id == 'self':
+                return None     # the node's own other method: followed through the class table (its child calls come back here)
+            got = [se.ex(x, env) for x in n.args]
+            if vol:
+                if n.func.attr != 'volume_evaluate':
+                    bad_calls.append('child evaluated with %s inside %s (the volume is not passed down)' % (n.func.attr, meth))
+                elif got != syms:
+                    bad_calls.append('child evaluated at %s, expected %s' % (got, syms))
+            else:
+                # without a volume a child is evaluated at (species, params, time), or - the same thing - with volume 1
+                unit = [syms[0], syms[1], sp.Integer(1), syms[2]]
+                g_ = [sp.Integer(1) if (getattr(x, 'is_Number', False) and x == 1) else x for x in got]
+                if not ((n.func.attr == 'evaluate' and got == syms) or (n.func.attr == 'volume_evaluate' and g_ == unit)):
+                    bad_calls.append('child evaluated with %s at %s, expected evaluate at %s (or volume_evaluate at unit volume)' % (n.func.attr, got, syms))
             return CHILD(se.ex(recv, env))
         return None
     se = symx.SymExec(prog, cls, call=call)
